@@ -50,8 +50,24 @@ func runBackend(ctx context.Context, b backend, file string, ms int) solveResult
 	return solveResult{status: st, backend: b.name, ms: time.Since(t0).Milliseconds(), output: out.String()}
 }
 
-// race all back ends; first definitive answer wins
+// staged portfolio: cvc5 alone for a short slice (answers most queries in milliseconds and avoids
+// spawning three processes per query), then all back ends raced for the full limit
 func race(file string, ms int) solveResult {
+	t0 := time.Now()
+	first := ms / 10
+	if first > 3000 {
+		first = 3000
+	}
+	r := runBackend(context.Background(), backends[0], file, first)
+	if r.status == "sat" || r.status == "unsat" {
+		return r
+	}
+	r2 := raceAll(file, ms)
+	r2.ms = time.Since(t0).Milliseconds()
+	return r2
+}
+
+func raceAll(file string, ms int) solveResult {
 	ctx, cancel := context.WithCancel(context.Background())
 	defer cancel()
 	ch := make(chan solveResult, len(backends))
